@@ -589,9 +589,13 @@ def check_units(ctx):
     for e, a in zip(ents, ctx.model.batch(reqs)):
         ctx.case(("k", json.dumps(e)), nontrivial=isinstance(e, dict))
         got = []
-        for basic in (True, False):
-            t = ColumnMetadata._detect_column_type(e, basic_validation=basic)
-            got.append(None if t is None else t.value)
+        try:
+            for basic in (True, False):
+                t = ColumnMetadata._detect_column_type(e, basic_validation=basic)
+                got.append(None if t is None else t.value)
+        except Exception as ex:
+            ctx.violation("never-raises:_detect_column_type", {"entry": e}, f"{type(ex).__name__}: {ex}")
+            continue
         if [a["basic"], a["raw"]] != got:
             ctx.disagree("SidecarV.detect = _detect_column_type", {"entry": e}, [a["basic"], a["raw"]], got)
 
